@@ -128,6 +128,31 @@ def nsFold (base : List Nat) (univ : List Nat) : List Out → List Out → List 
       univ.filter (fun k => (evView (fun k => if base.contains k then some 0 else none) outs k).isSome)
         :: nsFold base univ outs rest
 
+def markOf? : String → Option NsMark
+  | "live" => some .live | "blocked" => some .blocked | "finishing" => some .finishing | _ => none
+
+/-- a fed item with the reading of its body: `[type | null, key, mark]`; null = a listed item of the stream (ignored
+    by `process_discovered_namespace_event`) -/
+def nsEvOf? (j : Json) : Option (Option NsEv) := do
+  match ← jArr? j with
+  | [.null, _, _] => some none
+  | [.str t, k, m] => some (some ⟨t == "DELETED", ← (jStr? m >>= markOf?), ← jNat? k⟩)
+  | _ => none
+
+/-- the observer's own listing: `[key, mark]` per body, through `revise_namespaces(raw_bodies=…)` -/
+def nsBaseOf? (j : Json) : Option NsEv := do
+  match ← jArr? j with
+  | [k, m] => some ⟨false, ← (jStr? m >>= markOf?), ← jNat? k⟩
+  | _ => none
+
+/-- after every fed item: the served keys (sorted) -/
+def nsRevise (served : List Nat) : List (Option NsEv) → List (List Nat)
+  | [] => []
+  | none :: rest => served :: nsRevise served rest
+  | some e :: rest => let s' := reviseNs served e; s' :: nsRevise s' rest
+
+def sortNat (xs : List Nat) : List Nat := (xs.toArray.qsort (· < ·)).toList
+
 open Kopf.C19.Ens in
 /-- an orchestrator label: ["revise", insights] | ["acquire"] | ["termDone"] | ["spawnAll"] | ["die", [name, ns]] -/
 def labelOf? (j : Json) : Option Kopf.C19.Orch.Label := do
@@ -159,6 +184,11 @@ def handle : DrvHandler := fun op args =>
       let fs ← jArr? feed
       let outs ← (fs.zipIdx).mapM (fun (j, i) => feedOf? j (i + 1))
       some (ok (.arr ((nsFold b u [] outs).map (fun ks => Json.arr (ks.map (fun (k : Nat) => Json.num ((k : Nat) : Int))).toArray)).toArray))
+  | "C19.nsrevise", [base, feed, _univ] => do
+      let b ← (← jArr? base).mapM nsBaseOf?
+      let fs ← (← jArr? feed).mapM nsEvOf?
+      let rows := nsRevise (reviseAll [] b) fs
+      some (ok (.arr (rows.map (fun ks => Json.arr ((sortNat ks).map (fun (k : Nat) => Json.num ((k : Nat) : Int))).toArray)).toArray))
   | "C19.run", [srv0, acts] => do
       let s0 ← jNat? srv0
       let as ← (← jArr? acts).mapM actOf?
